@@ -19,7 +19,7 @@ def cargo_run(dst, timeout):
     env = dict(os.environ, CARGO_NET_OFFLINE="true", CARGO_TARGET_DIR=os.path.join(dst, "target"))
     t0 = time.time()
     try:
-        b = subprocess.run(["cargo", "build", "--release", "--offline", "-q"], cwd=dst, capture_output=True, text=True, env=env, timeout=timeout)
+        b = C.run_group(["cargo", "build", "--release", "--offline", "-q"], cwd=dst, env=env, timeout=timeout)
     except subprocess.TimeoutExpired:
         return {"built": False, "error": "build timeout", "build_s": timeout}
     if b.returncode != 0:
